@@ -18,18 +18,19 @@ import (
 )
 
 type c02Cfg struct {
-	ChunkSize  int64
-	Size       int64
-	W, C, S    int64
-	JoinWindow int64
-	Offsets    []int64 // proof offset inside window JoinWindow+i
-	Gas        []uint64
-	MaxProofs  int64
-	Sparse     bool // skip heights at which nothing can happen (large windows)
-	Others     []c02Other
-	Lapsers    int   // provers that join the file right after it is posted and never prove again (they get dropped at reward blocks)
-	Misses     int64 // the MissesToBurn parameter (0: leave the default); the property allows an honest prover no burn under any setting
-	PayOnce    int64 // > 0: the main file is paid once and expires this many blocks after its start (the chain demands >= 1 day)
+	ChunkSize   int64
+	Size        int64
+	W, C, S     int64
+	JoinWindow  int64
+	Offsets     []int64 // proof offset inside window JoinWindow+i
+	Gas         []uint64
+	MaxProofs   int64
+	Sparse      bool // skip heights at which nothing can happen (large windows)
+	Others      []c02Other
+	Lapsers     int   // provers that join the file right after it is posted and never prove again (they get dropped at reward blocks)
+	OwnerProves bool  // the honest prover is the account that owns (posted and pays for) the file
+	Misses      int64 // the MissesToBurn parameter (0: leave the default); the property allows an honest prover no burn under any setting
+	PayOnce     int64 // > 0: the main file is paid once and expires this many blocks after its start (the chain demands >= 1 day)
 }
 
 // c02Other is a further file of the same owner, posted Delay blocks after the main file (so its proof
@@ -62,13 +63,16 @@ func c02Run(c *chain.Chain, cfg c02Cfg) (out c02Out) {
 	w := newStorWorld(c, cfg.S)
 	defer func() { out.trace = w.trace }()
 	owner, prover := chain.Acc(0), chain.Acc(1)
+	if cfg.OwnerProves {
+		owner = prover // nothing forbids an owner to keep a replica of its own file and to be held to the same standard
+	}
 	w.setParams(func(p *storagetypes.Params) {
 		p.ChunkSize, p.ProofWindow, p.CheckWindow, p.CollateralPrice = cfg.ChunkSize, cfg.W, cfg.C, 1000
 		if cfg.Misses > 0 {
 			p.MissesToBurn = cfg.Misses
 		}
 	})
-	w.logf("params chunk=%d window=%d check=%d missesToBurn=%d (0 = default); file size %d start %d; join window %d offsets %v", cfg.ChunkSize, cfg.W, cfg.C, cfg.Misses, cfg.Size, cfg.S, cfg.JoinWindow, cfg.Offsets)
+	w.logf("params chunk=%d window=%d check=%d missesToBurn=%d (0 = default) ownerProves=%v; file size %d start %d; join window %d offsets %v", cfg.ChunkSize, cfg.W, cfg.C, cfg.Misses, cfg.OwnerProves, cfg.Size, cfg.S, cfg.JoinWindow, cfg.Offsets)
 	if r := w.buyStorage(owner, owner.Bech, 30, 1_000_000_000, ""); !r.OK() {
 		return c02Out{sig: "C02/harness", msg: "buy storage failed: " + r.String()}
 	}
@@ -245,6 +249,7 @@ func genC02(rt *rapid.T) c02Cfg {
 	if cfg.Size < 1 {
 		cfg.Size = 1
 	}
+	cfg.OwnerProves = rapid.IntRange(0, 3).Draw(rt, "ownerProves") == 0
 	cfg.Misses = rapid.SampledFrom([]int64{0, 0, 1, 1, 2, 3, 5}).Draw(rt, "missesToBurn")
 	cfg.W = rapid.Int64Range(2, 24).Draw(rt, "proofWindow")
 	cfg.C = rapid.Int64Range(2, 24).Draw(rt, "checkWindow")
